@@ -15,6 +15,7 @@ type SIPURI struct {
 	Password   string
 	Host       string
 	port       int
+	portText   string // the port as it was written ("" if none), re-encoded verbatim: port = 1*DIGIT allows leading zeros
 	Parameters []KeyValue
 	Headers    []KeyValue
 }
@@ -72,6 +73,9 @@ func parseHostPort(s string, sipUri *SIPURI) {
 	} else {
 		sipUri.Host = s[0:pos]
 		sipUri.port, _ = strconv.Atoi(s[pos+1:])
+		if sipUri.port != 0 {
+			sipUri.portText = s[pos+1:]
+		}
 	}
 }
 
@@ -182,7 +186,10 @@ func (s *SIPURI) _Write(writer io.Writer, withParams bool, withHeaders bool) (in
 		}
 	}
 	//hostport
-	if s.port != 0 {
+	if s.port != 0 && s.portText != "" {
+		m, _ := fmt.Fprintf(writer, "%s:%s", s.Host, s.portText)
+		n += m
+	} else if s.port != 0 {
 		m, _ := fmt.Fprintf(writer, "%s:%d", s.Host, s.port)
 		n += m
 	} else {
